@@ -703,3 +703,110 @@ def c19(run):
              "call per transport read with identical (bytes, n, err), before-parse = concatenation of reads, and equal returns within a pair; non-trivial = every exchange with hooks",
         assumptions=CLIENT_ASSUME + ["hook arguments are copied at call time (they alias the receive buffer)"],
         mcs=[], prop_filter=["C07", "C08", "C12"])
+
+
+# ---------------------------------------------------------------- C14 shared client
+def mutex_confirm(run, trace):
+    lines = None
+    state = {"n": 0}
+
+    def confirm(v):
+        nonlocal lines
+        if lines is None:
+            lines = trace_lines(trace)
+        j = v["line"]
+        while j >= 0 and '"ev":"reset"' not in lines[j]:
+            j -= 1
+        if j < 0:
+            return "confirmed"
+        rs = json.loads(lines[j])
+        if rs["mode"] != "schedule":
+            return "confirmed"     # free-running schedule: not replayable; the event itself is the evidence
+        steps = []
+        k = j + 1
+        while k < len(lines) and '"ev":"reset"' not in lines[k]:
+            e = json.loads(lines[k])
+            if e["ev"] == "sched":
+                steps.append({"a": e["a"], "p": e["p"]})
+            k += 1
+        case = {"op": "schedule", "n": rs["n"], "m": rs["m"], "admin": rs["admin"], "steps": steps, "client": rs["client"]}
+        v["context"] = {"replay_case": case, "family": "mutex", "trace_spec": "Trace_Mutex"}
+        state["n"] += 1
+        if state["n"] > 8:
+            return "confirmed"
+        cp, tp = run.path("confirm-%d.cases" % state["n"]), run.path("confirm-%d.trace" % state["n"])
+        with open(cp, "w") as f:
+            f.write(json.dumps(case) + "\n")
+        run.drive("mutex", cp, tp, extra=["-mode", "solo"])
+        vs, _ = run.validate("Trace_Mutex", "Trace_Mutex.cfg", tp, shards=1)
+        return "confirmed" if vs else "unreproduced"
+    return confirm
+
+
+@check("C14")
+def c14(run):
+    T = run.tier == "thorough"
+    rnd = random.Random(run.seed)
+    mc(run, "ClientMutex", "MC_ClientMutex_Lock.cfg")
+    mc(run, "ClientMutex", "MC_ClientMutex_NoLock.cfg", expect_violation=True)
+    sched_admin, sched_na = run.path("sched-admin.ndjson"), run.path("sched-na.ndjson")
+    open(sched_admin, "w").close()
+    open(sched_na, "w").close()
+    n1 = run.gen("ClientMutex", "Gen_ClientMutex.cfg", sched_admin)
+    n2 = run.gen("ClientMutex", "Gen_ClientMutex_NA.cfg", sched_na)
+    la, ln = trace_lines(sched_admin), trace_lines(sched_na)
+    rnd.shuffle(la)
+    rnd.shuffle(ln)
+    cases = run.path("cases.ndjson")
+    nsched = 0
+    with open(cases, "w") as f:
+        for line in la[:(len(la) if T else 500)]:
+            c = json.loads(line)
+            c["client"] = "tcp"
+            f.write(json.dumps(c) + "\n")
+            nsched += 1
+        for line in ln[:(len(ln) if T else 150)]:
+            c = json.loads(line)
+            c["client"] = "rtu"
+            f.write(json.dumps(c) + "\n")
+            nsched += 1
+        for line in ln[:(120 if T else 24)]:
+            c = json.loads(line)
+            c["client"] = "serial"
+            f.write(json.dumps(c) + "\n")
+            nsched += 1
+    trace = run.path("trace.ndjson")
+    run.drive("mutex", cases, trace, timeout=3000)
+    # free-running part with the race detector
+    rcases, rtrace = run.path("rcases.ndjson"), run.path("rtrace.ndjson")
+    nrand = 0
+    with open(rcases, "w") as f:
+        for i in range(60 if T else 12):
+            for cl, n, m, adm in (("tcp", 2, 20, True), ("tcp", 4, 10, True), ("tcp", 16, 5, False), ("rtu", 4, 10, True), ("serial", 4, 3, False)):
+                f.write(json.dumps({"op": "random", "n": n, "m": m, "admin": adm, "client": cl, "seed": rnd.randint(1, 1 << 30)}) + "\n")
+                nrand += 1
+    p = run.drive("mutex", rcases, rtrace, race=True, timeout=3000, env={"GORACE": "halt_on_error=0 exitcode=0"})
+    races = p.stderr.count("WARNING: DATA RACE")
+    lib_race = races > 0 and ("go-modbus-client" in p.stderr or "/repo/" in p.stderr)
+    with open(trace, "a") as f:
+        f.write(open(rtrace).read())
+        if lib_race:
+            f.write(json.dumps({"ev": "reset", "mode": "race", "client": "tcp", "n": 0, "m": 0, "admin": False, "closer": 0, "connector": 0}) + "\n")
+            f.write(json.dumps({"ev": "race", "report": p.stderr[:3000]}) + "\n")
+    verdicts, nev = run.validate("Trace_Mutex", "Trace_Mutex.cfg", trace, resync_key='"ev":"reset"')
+    kn, viol = vlib.settle(run, verdicts)
+    ops = vlib.count_ops(trace, key="ev")
+    cov = {
+        "states": run.tlc_stats["states"], "transitions": run.tlc_stats["transitions"],
+        "traces_validated_against_impl": ops.get("reset", 0),
+        "evaluations": ops.get("reset", 0), "distinct_nontrivial": ops.get("arrive", 0),
+        "rule": "model: all interleavings of N=3 callers x M=2 calls + Close + Connect goroutines (lock), NoLock variant must fail; implementation: complete schedules of the locked "
+                "model (N=2,M=1 with Close/Connect; N=3,M=1 without) replayed through a gated transport on Client (TCP, RTU) and SerialClient, every goroutine arrival at a transport "
+                "operation validated by TLC against the specification; plus free-running seeded runs under the Go race detector; non-trivial = arrivals at transport operations",
+        "schedules_generated": n1 + n2, "schedules_replayed": nsched, "free_running_runs": nrand, "race_reports": races, "events_by_kind": ops,
+        "samples": vlib.sample_lines(trace, 3), "exhaustive": False,
+    }
+    return vlib.finish(run, "model_checking", cov,
+                       ["data-race freedom is observed by the Go race detector (not expressible in TLA+); a report inside the library is an event no specification action allows",
+                        "the gated transport attributes a Read to the goroutine whose Write preceded it on that connection"],
+                       kn, viol, confirm=mutex_confirm(run, trace))
